@@ -15,6 +15,14 @@ import (
 
 type errorChan chan error
 
+// panicToError converts a recovered panic value into an error.
+func panicToError(r interface{}) error {
+	if err, ok := r.(error); ok {
+		return errors.Wrap(err, "unexpected error")
+	}
+	return errors.Newf("unexpected error: %v", r)
+}
+
 func (c errorChan) getError() error {
 	for err := range c {
 		if err != nil {
@@ -80,6 +88,11 @@ func (c *coalesceOperator) Next(ctx context.Context) ([]model.StepVector, error)
 		c.wg.Add(1)
 		go func(opIdx int, o model.VectorOperator) {
 			defer c.wg.Done()
+			defer func() {
+				if r := recover(); r != nil {
+					errChan <- panicToError(r)
+				}
+			}()
 
 			in, err := o.Next(ctx)
 			if err != nil {
@@ -143,16 +156,9 @@ func (c *coalesceOperator) loadSeries(ctx context.Context) error {
 		go func(i int) {
 			defer wg.Done()
 			defer func() {
-				e := recover()
-				if e == nil {
-					return
+				if r := recover(); r != nil {
+					errChan <- panicToError(r)
 				}
-
-				switch err := e.(type) {
-				case error:
-					errChan <- errors.Wrapf(err, "unexpected error")
-				}
-
 			}()
 			series, err := c.operators[i].Series(ctx)
 			if err != nil {
